@@ -90,13 +90,14 @@ class State:
 
 
 class Frame:
-    __slots__ = ("fn", "depth", "bb", "ret_to")
+    __slots__ = ("fn", "depth", "bb", "ret_to", "consts")
 
     def __init__(self, fn, depth):
         self.fn = fn
         self.depth = depth
         self.bb = 0
         self.ret_to = None  # (dest place, target bb) in caller
+        self.consts = None  # const generic parameters bound at the call (`take::<6>()`): name -> integer
 
     def root(self, local):
         return ("L", self.depth, local)
@@ -414,7 +415,10 @@ class Explorer:
         if "move" in op:
             return self.read_place(st, fr, op["move"])
         if "const" in op:
-            return self.const_val(op["const"])
+            c = op["const"]
+            if fr.consts and "bits" not in c and c.get("s") in fr.consts:
+                return C(fr.consts[c["s"]], c.get("ty"))      # a const generic parameter bound at the inlined call
+            return self.const_val(c)
         return SYM(("op?",))
 
     # ------------------------------------------------------- constraints
@@ -636,6 +640,13 @@ class Explorer:
                 return a
             return SYM(self.cap(("cast", a, rv["ty"], self.operand_ty(fr.fn, rv["op"]))))
         if k == "repeat":
+            n_ = rv.get("n")
+            if isinstance(n_, str) and fr.consts and n_ in fr.consts:
+                n_ = fr.consts[n_]
+            if isinstance(n_, str) and n_.isdigit():
+                n_ = int(n_)
+            if isinstance(n_, int) and n_ <= 64 and "op" in rv:
+                return ("arr", tuple(self.operand(st, fr, rv["op"]) for _ in range(n_)))
             return SYM(("repeat",))
         return SYM(("rv?", k))
 
@@ -860,6 +871,7 @@ class Explorer:
             g = Frame(f.fn, f.depth)
             g.bb = f.bb
             g.ret_to = f.ret_to
+            g.consts = f.consts
             out.append(g)
         return out
 
@@ -948,6 +960,7 @@ class Explorer:
                 cf = self.F.fns[fv[1]]
                 info = {"path": fv[1], "name": cf.get("name"), "targs": [], "local": True, "impl_self": cf.get("impl_self", "")}
                 path = fv[1]
+                self._cur_mut_sig = tuple(i for i in range(cf.get("argc", 0)) if cf["locals"][i + 1].startswith("&mut "))
             else:
                 self.opaque_call(st, fr, "<indirect>", args, dest, site, None)
                 return self.after_call(st, fr, target)
@@ -972,9 +985,14 @@ class Explorer:
             if fv[0] == "ref":
                 fv = self.read_loc(st, fv[1], fv[2])
             if fv[0] == "fn" and fv[1] in self.F.fns and len(args) > 1 and len(stack) < 12:
+                # ... and is treated like a direct call to it (inlined or kept as a call by the same policy)
                 cargs = args[1]
-                cvals = list(cargs[1]) if cargs[0] == "tup" else ([] if cargs[0] == "unit" else [cargs])
-                return self.enter(st, stack, fr, self.F.fns[fv[1]], cvals, dest, target, None)
+                args = list(cargs[1]) if cargs[0] == "tup" else ([] if cargs[0] == "unit" else [cargs])
+                cf = self.F.fns[fv[1]]
+                info = {"path": fv[1], "name": cf.get("name"), "targs": [], "local": True, "impl_self": cf.get("impl_self", "")}
+                path = fv[1]
+                name = info["name"]
+                self._cur_mut_sig = tuple(i for i in range(cf.get("argc", 0)) if cf["locals"][i + 1].startswith("&mut "))
         m = self.model_call(st, stack, fr, info, path, args, t, site)
         if m is not None:
             return m
@@ -1022,6 +1040,7 @@ class Explorer:
                 return self.enter(st, stack, fr, callee, args, dest, target, None)
         if callee is not None and self.inline_pred(self, callee, info):
             self.stats["inlined"].add(path)
+            self._pending_targs = info.get("targs")
             return self.enter(st, stack, fr, callee, args, dest, target, None)
         self.stats["opaque"].add(path)
         self.opaque_call(st, fr, path, args, dest, site, info)
@@ -1063,6 +1082,20 @@ class Explorer:
                 raise ExploreError("recursion through %s" % callee["path"])
         nf = Frame(callee, len(stack))
         nf.ret_to = (dest, target, cont)
+        targs = getattr(self, "_pending_targs", None)
+        self._pending_targs = None
+        gens = callee.get("generics")
+        if targs and gens and len(targs) == len(gens):
+            cm = {}
+            for gname, ta in zip(gens, targs):
+                m = re.match(r"^(\d+)(_?[ui](8|16|32|64|128|size))?$", ta)
+                if m:
+                    cm[gname] = int(m.group(1))
+                elif fr is not None and fr.consts and ta in fr.consts:
+                    cm[gname] = fr.consts[ta]
+            nf.consts = cm or None
+        elif closure and fr is not None:
+            nf.consts = fr.consts
         for i, a in enumerate(args):
             st.heap[(nf.root(i + 1), ())] = a
         if callee.get("kind") == "Closure" and callee["argc"] == 2 and len(args) != 2:
@@ -1837,6 +1870,14 @@ class Explorer:
                 self.finish_path(st, None, "diverge")
                 return "stop"
             return ("fork", alts)
+        # ---- split_at: (&x[..n], &x[n..]); its precondition n <= len is an obligation of the panic ledger (STD_PANICS)
+        if p in ("std::slice::<impl [T]>::split_at", "std::slice::<impl [T]>::split_at_mut") and len(args) == 2:
+            base, n_ = args[0], args[1]
+            INDEX = "std::slice::index::<impl std::ops::Index<I> for [T]>::index"
+            left = SYM(self.cap(("call", INDEX, (base, AGG("std::ops::RangeTo", "RangeTo", (n_,))))))
+            right = SYM(self.cap(("call", INDEX, (base, AGG("std::ops::RangeFrom", "RangeFrom", (n_,))))))
+            st.effects.append(("call", p, tuple(args), (self.deref(st, base) if base[0] == "ref" else base, n_), ("tup", (left, right)), site, dict(st.cons)))
+            return ret(("tup", (left, right)))
         # ---- split_at_checked: Some((&x[..n], &x[n..])) exactly when n <= len
         if p == "std::slice::<impl [T]>::split_at_checked" and len(args) == 2:
             base, n_ = args[0], args[1]
@@ -2305,7 +2346,7 @@ class Explorer:
         self.enter(st, stack, fr, callee, cargs, None, None, cont, closure=True)
 
 
-SNAP_RE = re.compile(r"(::index(_mut)?$)|(::copy_from_slice$)|(ArcPayload::new$)|(::split_at$)|(^std::ops::(Add::add|Sub::sub|Mul::mul)$)|(^core::panicking::)|(^std::panicking::)")
+SNAP_RE = re.compile(r"(::index(_mut)?$)|(::copy_from_slice$)|(ArcPayload::new$)|(::split_at(_mut)?$)|(Vec::<T, A>::(remove|swap_remove|insert|split_off)$)|(::clone_from_slice$)|(^std::ops::(Add::add|Sub::sub|Mul::mul)$)|(^core::panicking::)|(^std::panicking::)")
 
 
 def int_range(ty):
@@ -2428,7 +2469,7 @@ def small_private_helper(callee, props_ok=False):
     build(), parse() or a serialiser).  Functions that take a property list (validators and their helpers: they iterate)
     are followed only on request (props_ok) - the rules that evaluate validators do so on concrete lists."""
     return callee.get("kind") in ("Fn", "AssocFn") and not callee.get("pub") and callee["path"].startswith("mqtt::packet::") \
-        and len(callee["blocks"]) <= 60 and not callee.get("impl_trait") and "Builder" not in callee.get("impl_self", "") \
+        and len(callee["blocks"]) <= 120 and not callee.get("impl_trait") and "Builder" not in callee.get("impl_self", "") \
         and (props_ok or not (callee.get("prop_validator") or (takes_property_list(callee) and has_back_edge(callee))))
 
 
